@@ -63,8 +63,17 @@ Definition nodes (g : graph) : list term := flat_map (fun t => [fst (so_of t); s
 
 (* Graph.triples with a URIRef predicate: the store's answer *)
 Definition triples_of (g : graph) (pt : pat) : list triple := filter (matches pt) g.
-Definition ev_iri (g : graph) (q : term) : ev :=
-  fun s o => Ok (map so_of (triples_of g (s, Some q, o))).
+
+(* The store's answer to a triple pattern is an *enumeration* of the matching
+   triples in an order that the model does not fix (the Memory store walks one of
+   its three nested-dict indices).  The evaluators take the enumeration function
+   as a parameter; [std_enum] lists the matches in graph-list order, and
+   Paths/Order.v proves that the multiset of yields is the same for every
+   enumeration that is a permutation of the matches. *)
+Definition enum := pat -> list triple.
+Definition std_enum (g : graph) : enum := triples_of g.
+Definition ev_iri (E : enum) (q : term) : ev :=
+  fun s o => Ok (map so_of (E (s, Some q, o))).
 
 (* InvPath.eval *)
 Definition ev_inv (f : ev) : ev := fun s o => rmap (map swap) (f o s).
@@ -134,10 +143,10 @@ Fixpoint neg_keep (g : graph) (t : triple) (l : list negarg) : res bool :=
       end
   end.
 
-Definition ev_neg (g : graph) (l : list negarg) : ev :=
+Definition ev_neg (g : graph) (E : enum) (l : list negarg) : ev :=
   fun s o =>
     rconcat (map (fun t => rmap (fun b : bool => if b then [so_of t] else []) (neg_keep g t l))
-                 (triples_of g (s, None, o))).
+                 (E (s, None, o))).
 
 (* MulPath.eval *)
 Definition mod_zero (m : mulmod) : bool := match m with OneOrMore => false | _ => true end.
@@ -245,15 +254,17 @@ Definition hist_ev_mul (g : graph) (n : nat) (f : ev) (m : mulmod) : ev :=
   fun s o => rmap (fun r => mul_pre (mod_zero m) s o ++ dedup pr_eqb r) (mul_raw g n f m s o).
 
 (* Graph.triples((s, path, o)) *)
-Fixpoint eval (g : graph) (n : nat) (p : path) {struct p} : ev :=
+Fixpoint evalE (E : enum) (g : graph) (n : nat) (p : path) {struct p} : ev :=
   match p with
-  | Iri q => ev_iri g q
-  | Inv a => ev_inv (eval g n a)
-  | Seq l => ev_seq (map (fun a => eval g n a) l)
-  | Alt l => ev_alt (map (fun a => eval g n a) l)
-  | Mul a m => ev_mul g n (eval g n a) m
-  | Neg l => ev_neg g l
+  | Iri q => ev_iri E q
+  | Inv a => ev_inv (evalE E g n a)
+  | Seq l => ev_seq (map (fun a => evalE E g n a) l)
+  | Alt l => ev_alt (map (fun a => evalE E g n a) l)
+  | Mul a m => ev_mul (E (None, None, None)) n (evalE E g n a) m   (* graph.subject_objects(None) *)
+  | Neg l => ev_neg g E l
   end.
+
+Definition eval (g : graph) (n : nat) (p : path) : ev := evalE (std_enum g) g n p.
 
 (* enough fuel for every depth-first search: one more than the number of
    subject/object occurrences *)
@@ -302,6 +313,23 @@ Fixpoint path_rel (g : graph) (p : path) {struct p} : term -> term -> Prop :=
   | Alt l => alt_rel (map (fun a => path_rel g a) l)
   | Mul a m => mul_rel m (path_rel g a)
   | Neg l => neg_rel g l
+  end.
+
+(* What NegatedPath.eval computes when the set has inverse members (finding F4c,
+   pinned by the module doctest of paths.py): a forward triple (x, p, y) is kept
+   unless p is a forward member or (y, q, x) is in the graph for an inverse member ^q. *)
+Definition neg_rel_impl (g : graph) (l : list negarg) (x y : term) : Prop :=
+  exists p, In (x, p, y) g /\ ~ In p (neg_fw l) /\ forall q, In q (neg_iv l) -> ~ In (y, q, x) g.
+
+(* the relation the code computes: [path_rel] with that reading of negated sets *)
+Fixpoint impl_rel (g : graph) (p : path) {struct p} : term -> term -> Prop :=
+  match p with
+  | Iri q => fun x y => In (x, q, y) g
+  | Inv a => fun x y => impl_rel g a y x
+  | Seq l => seq_rel (map (fun a => impl_rel g a) l)
+  | Alt l => alt_rel (map (fun a => impl_rel g a) l)
+  | Mul a m => mul_rel m (impl_rel g a)
+  | Neg l => neg_rel_impl g l
   end.
 
 (* "restricted to the given start and/or end term"; with both ends unbound the
@@ -524,3 +552,16 @@ Definition hobs_eqb (a b : hobs) : bool := list_eqb obs_eqb a b.
 Definition hmodel_obs (c : hcase) : hobs := h_run (h_g c) (h_steps c).
 Definition hspec_ok (c : hcase) (os : hobs) : bool := h_spec (h_g c) (h_steps c) os.
 Definition hkf (c : hcase) : N := h_kf (h_g c) (h_steps c).
+
+(* ------------------------------------------------------------------ *)
+(* evaluate.evalBGP on the single pattern  ?x path ?x : the pattern is evaluated with
+   both ends unbound, ?x is bound to the start, and binding it again to the end
+   raises AlreadyBound (solution skipped) unless the two are the same term *)
+Definition diag (xy : pr) : bool := N.eqb (fst xy) (snd xy).
+Definition model_obs_same (c : case) : obs := rmap (filter diag) (model_obs c).
+Definition spec_ok_same (c : case) (o : obs) : bool :=
+  match o with
+  | Ok l => seteqb pr_eqb l (filter diag (expected (c_g c) (c_path c) None None))
+  | _ => false
+  end.
+Definition wf_same (c : case) : Prop := wf c /\ c_s c = None /\ c_o c = None.
